@@ -169,6 +169,14 @@ CHECKS = {
               "number of distinct strings must equal the saved keyspace, and the saved level probability must be (count at level / N) "
               "/ keyspace, with zero-keyspace levels absent. Exploration; larger levels are inconclusive and counted."),
         design='4/C18'),
+    'C13': dict(
+        technique="Hypothesis property-based differential testing of the real scorer against the language map of a full real guesser run on rulesets produced by the real trainer, with perturbed candidates; classification and purity checks",
+        text=("Generated training lists are trained, the real guesser enumerates the whole (bounded) language with pre-terminal "
+              "probabilities, and the real scorer scores training passwords, guesser output, case/digit/symbol perturbations, unrelated "
+              "strings and e-mail/website strings: a non-zero score requires the exact string in the guesser's language with a "
+              "pre-terminal probability equal to 1e-9 relative; detected e-mail/website strings must be classified e/w with "
+              "probability 0; re-scoring must return the identical tuple. Exploration."),
+        design='4/C13'),
 }
 
 NOT_YET = "check not built yet in this round (design exists in DESIGN.md section 4); not claimed until it runs"
